@@ -30,6 +30,11 @@ ASSUMPTIONS = [
     "np.isclose is modelled with rtol=1e-5, atol=1e-8 as exact decimal rationals (no generated joint lies near that boundary)",
     "the property quantifies over lanelet graphs whose successor / predecessor ids name lanelets of the network; networks with "
     "dangling ids (AttributeError on None) are modelled (findSuccessorsR / findPredecessorsR) and compared, but excluded from the oracle",
+    "maximality in the strong sense (a returned path has no admissible extension) and duplicate-freeness of the returned LIST are "
+    "not claimed by the property text and are false for the code (C20_witness_route_not_maximal, C20_witness_route_duplicates, "
+    "replayed from corpus/C20/net_witness_*.json); the oracle therefore checks neither, the correspondence compares order and "
+    "multiplicity exactly",
+    "theorems are stated for 2-D points; 3-D centre lines (kind poly3) are covered by the correspondence of `cum` and the oracle only",
     "the exhaustive stream enumerates every labelled digraph without self-successors on <= 3 (quick) / <= 4 (thorough) nodes",
 ]
 TRUSTED = ["C20: termination of the real route functions is observed through a call budget on LaneletNetwork.find_lanelet_by_id "
@@ -37,7 +42,7 @@ TRUSTED = ["C20: termination of the real route functions is observed through a c
 REQUIRED_BUCKETS = ["poly", "poly3d", "poly/s=0", "poly/s=length", "poly/s=vertex", "poly/s=interior", "poly/s=out-of-range",
                     "poly/repeated-vertex", "polyfloat", "merge/joined-exact", "merge/open", "merge/unlinked", "merge/swapped-args",
                     "net", "net/cyclic", "net/diamond", "net/range=path-length", "net/range-huge", "net/exhaustive",
-                    "net/pred-independent", "net/dangling-id"]
+                    "net/pred-independent", "net/dangling-id", "net/witness"]
 WORKERS = {"quick": 1, "thorough": 8}
 
 DIRS = [(3, 4, 5), (4, 3, 5), (5, 12, 13), (12, 5, 13), (8, 15, 17), (15, 8, 17), (7, 24, 25), (20, 21, 29), (1, 0, 1), (0, 1, 1)]
@@ -428,6 +433,10 @@ def run_poly(ctx, case):
         return
     d = [float(v) for v in dres[1]]
     ctx.compare(case, [rat(v) for v in d], ctx.driver.ask("C20", "cum", {"lens": lens_r}), "Lanelet.distance vs CR.Arc.cumDist")
+    # the side condition of the Euclidean theorems (C20_cum_euclid, C20_interp_arclength): the lengths numpy computed are the
+    # non-negative roots of the squared vertex distances — exact on the grid, so the model's decidable `isEuclid` must say true
+    ctx.compare(case, True, ctx.driver.ask("C20", "euclid", {"center": c, "lens": lens_r}),
+                "numpy segment lengths satisfy CR.Arc.isEuclid (l_i >= 0, l_i^2 = |c_i+1 - c_i|^2)")
     # inner_distance (same helper, two polylines, np.amin)
     ires = call(lambda: lan.inner_distance)
     ll, lr = np_seglens(pts_to_np(le)), np_seglens(pts_to_np(ri))
@@ -804,6 +813,10 @@ def run_net(ctx, case):
         signal.setitimer(signal.ITIMER_REAL, 0)
         signal.signal(signal.SIGALRM, old)
     ctx.compare(case, impl, model, "find_lanelet_{successors,predecessors}_in_range vs CR.Route.find{Successors,Predecessors}")
+    if "expect_successors" in case:   # witness cases of CRProps/C20.lean (C20_witness_route_*), replayed on the real code
+        ctx.tag("net/witness")
+        ctx.compare(case, [row[0] for row in impl], [{"ok": e} for e in case["expect_successors"]],
+                    "find_lanelet_successors_in_range on the witness networks of C20_witness_route_not_maximal / _duplicates")
 
 
 # ------------------------------------------------------------------------------------------------ entry points
